@@ -2,7 +2,7 @@
 """C20: RDKit bridge -- bond code books, sign conventions, attribute coverage (no RDKit needed: source only)."""
 import ast
 from .core import AnalysisError
-from .astutil import src
+from .astutil import src, expand_locals
 
 RD = 'chython.utils.rdkit'
 
@@ -47,14 +47,25 @@ def rule_sign_conventions(ck, repo, R):
     ck.decide(last == 's == _chiral_ccw', R, 'import:tetrahedron-polarity', last, f'import maps the chiral tag to a sign by `{last}`; export maps True to CCW', file=ff.file, line=imp_t[0].lineno)
     exp_t = [n for n in ast.walk(tf.node) if isinstance(n, ast.Call) and src(n.func) == 'ra.SetChiralTag']
     ck.require(len(exp_t) == 1, 'to_rdkit_molecule: SetChiralTag not found')
-    ck.decide(src(exp_t[0].args[0]) == '_chiral_ccw if s else _chiral_cw', R, 'export:tetrahedron-polarity', src(exp_t[0].args[0]),
+    def polarity(e, fn):
+        """(value when the condition is true, value when false, condition) of a conditional expression, `not` folded, single-definition locals expanded"""
+        e = expand_locals(e, fn)
+        if not isinstance(e, ast.IfExp):
+            return None
+        t, a, b = e.test, src(e.body), src(e.orelse)
+        while isinstance(t, ast.UnaryOp) and isinstance(t.op, ast.Not):
+            t, a, b = t.operand, b, a
+        return a, b, src(t)
+    pt = polarity(exp_t[0].args[0], tf.node)
+    ck.decide(pt is not None and pt[:2] == ('_chiral_ccw', '_chiral_cw') and '_translate_tetrahedron_sign' in pt[2], R, 'export:tetrahedron-polarity', src(exp_t[0].args[0]),
               f'export sets the chiral tag as `{src(exp_t[0].args[0])}`; import reads CCW as True', file=tf.file, line=exp_t[0].lineno)
     imp_c = [n for n in ast.walk(ff.node) if isinstance(n, ast.Call) and src(n.func) == 'cis_trans_stereo.append']
     ck.require(len(imp_c) == 1, 'from_rdkit_molecule: cis/trans stereo collection not found')
     ck.decide(src(imp_c[0].args[0].elts[-1]) == 's == _cis', R, 'import:cis-polarity', src(imp_c[0].args[0].elts[-1]), 'import no longer maps Z to True', file=ff.file, line=imp_c[0].lineno)
     exp_c = [n for n in ast.walk(tf.node) if isinstance(n, ast.Call) and src(n.func) == 'rb.SetStereo']
     ck.require(len(exp_c) == 1, 'to_rdkit_molecule: SetStereo not found')
-    ck.decide(src(exp_c[0].args[0]) == '_cis if b.stereo else _trans', R, 'export:cis-polarity', src(exp_c[0].args[0]), 'export no longer maps True to Z', file=tf.file, line=exp_c[0].lineno)
+    pc = polarity(exp_c[0].args[0], tf.node)
+    ck.decide(pc is not None and pc[:2] == ('_cis', '_trans') and pc[2].endswith('.stereo'), R, 'export:cis-polarity', src(exp_c[0].args[0]), 'export no longer maps True to Z', file=tf.file, line=exp_c[0].lineno)
     # neighbour orders
     ck.decide('mol._translate_tetrahedron_sign(n, [mapping[x] for x in env], s)' in fs and '[x.GetIdx() for x in ra.GetNeighbors()]' in fs, R, 'import:neighbour-order', None,
               'import no longer translates the tag from RDKit\'s neighbour order', file=ff.file, line=ff.lineno)
@@ -90,7 +101,9 @@ def rule_attribute_coverage(ck, repo, R):
     for n in ast.walk(tf.node):
         if isinstance(n, ast.Call) and isinstance(n.func, ast.Attribute) and src(n.func.value) == 'ra' and n.func.attr.startswith('Set') and n.args:
             exp[n.func.attr] = src(n.args[0])
+    if 'SetChiralTag' in exp:  # its value is decided by the sign-convention rule
+        exp['SetChiralTag'] = '<sign>'
     want = {'SetNumExplicitHs': 'a.implicit_hydrogens', 'SetAtomMapNum': 'n', 'SetFormalCharge': 'a.charge', 'SetIsotope': 'a.isotope', 'SetNumRadicalElectrons': '1',
-            'SetChiralTag': '_chiral_ccw if s else _chiral_cw'}
+            'SetChiralTag': '<sign>'}
     ck.decide(exp == want, R, 'export:values', exp, f'export sets {exp}', file=tf.file, line=tf.lineno)
     ck.decide('atom.xy = (x, y)' in src(ff.node) and 'conf.SetAtomPosition(mapping[n], (a.x, a.y, 0))' in src(tf.node), R, 'coordinates', None, '2D coordinates are no longer transferred both ways', file=ff.file, line=ff.lineno)
